@@ -11,7 +11,22 @@ OPS = ["+", "-", "*", "/", "%", "<", "<=", ">", ">=", "==", "!=", "&", "|", "xor
 KINDS = ["int", "bigint", "float", "byte"]
 
 
-CARRIERS = ["element", "field", "parameter", "captured", "result", "map-value", "optional"]
+CARRIERS = ["element", "field", "parameter", "captured", "result", "map-value", "optional", "literal"]
+
+
+def literal_of(kind, v):
+    """the operand written as a literal in place (the compiler then evaluates the operator itself); None when the value has no literal"""
+    if kind == "int":
+        return str(v) if v >= 0 else (f"(-{-v})" if -v <= N.I32_MAX else None)
+    if kind == "bigint":
+        return f"B{v}" if v >= 0 else (f"(-B{-v})" if -v <= N.I128_MAX else None)
+    if kind == "byte":
+        return "0b" + bin(v)[2:]
+    if kind == "float":
+        if v != v or v in (math.inf, -math.inf):
+            return None
+        return N.float_literal(v) if math.copysign(1.0, v) > 0 else f"(-{N.float_literal(-v)})"
+    return None
 
 
 def cell_program(op, lk, a, rk, b, carrier="variable"):
@@ -36,6 +51,11 @@ def cell_program(op, lk, a, rk, b, carrier="variable"):
         lines += [f"ma = map[str, {lk}]", 'ma["k"] = a', f"mb = map[str, {rk}]", 'mb["k"] = b', f'print (get ma["k"]) {op} (get mb["k"])']
     elif carrier == "optional":
         lines += [f"oa: {lk}? = a", f"ob: {rk}? = b", f"print (get oa) {op} (get ob)"]
+    elif carrier == "literal":
+        la, lb = literal_of(lk, a), literal_of(rk, b)
+        if la is None or lb is None:
+            return None
+        lines += [f"print {la} {op} {lb}"]
     else:
         raise ValueError(carrier)
     return "\n".join(lines) + "\n"
@@ -77,6 +97,9 @@ def unary_program(op, k, a, carrier="variable"):
         lines += [f"ma = map[str, {k}]", 'ma["k"] = a', f'print {op}(get ma["k"])']
     elif carrier == "optional":
         lines += [f"oa: {k}? = a", f"print {op}(get oa)"]
+    elif carrier == "literal":
+        la = literal_of(k, a) if k != "bool" else ("true" if a else "false")
+        lines += [f"print {op}{la}"] if la is not None else [f"print {op}a"]
     else:
         raise ValueError(carrier)
     return "\n".join(lines) + "\n"
@@ -87,7 +110,7 @@ class C05(Check):
     level = "exploration"
     rule = ("every cell (operator in 16 binary operators, left kind, right kind in {int,bigint,float,byte}, left value, "
             "right value from the per-kind boundary sets), operands reaching the operator through run-time variables and - for 2 (thorough 3) values per kind - "
-            "through 7 other carriers (list element, object field incl. inside a method, parameter, captured variable, function result, map value, unwrapped optional); "
+            "through 8 other carriers (literal operands evaluated by the compiler, list element, object field incl. inside a method, parameter, captured variable, function result, map value, unwrapped optional); "
             "unary minus on every int/bigint/float value and `!` on both booleans.  Non-trivial = the compiler accepts the "
             "cell; distinct = distinct (op, kinds, values).")
     assumptions = ["dev profile (integer-overflow checks on), as the repository's own suite",
@@ -126,7 +149,7 @@ class C05(Check):
                 for car in CARRIERS:
                     yield ("car", car) + c[1:]
 
-        ls = [("L0-unary", list(unary())), ("L1-3-values", list(cells(3))), ("L1b-3-values-through-7-carriers", carried(3 if tier == "thorough" else 2)),
+        ls = [("L0-unary", list(unary())), ("L1-3-values", list(cells(3))), ("L1b-values-through-8-carriers", carried(3 if tier == "thorough" else 2)),
               (f"L2-{nv}-values", cells(nv))]
         return ls
 
@@ -163,6 +186,8 @@ class C05(Check):
             _, op, lk, ai, rk, bi = case
             a, b = N.VALUES[lk][ai], N.VALUES[rk][bi]
             src = cell_program(op, lk, a, rk, b, car)
+            if src is None:
+                return {"outcome": "no-literal", "nontrivial": False}
             static_ok = False
             try:
                 exp = N.binop(op, lk, a, rk, b)
@@ -187,6 +212,9 @@ class C05(Check):
         if not compiled:
             if static_ok:
                 return {"outcome": "static-reject-float-bitop", "nontrivial": False, "tags": ["static-reject"]}
+            if case[0] == "bin" and car == "literal" and isinstance(exp, Exception):
+                # literal operands: the compiler evaluates the operator itself and refuses an operation that would stop the program
+                return {"outcome": "literal-failure-refused", "nontrivial": True, "tags": ["literal-refused"]}
             bad("rejected", f"{desc}: the compiler rejects a numeric operator cell: {res.out[-300:]}")
             return {"outcome": "rejected", "viol": viol, "nontrivial": False}
         if lines[:len(operands)] != operands:
